@@ -1,5 +1,4 @@
 import OptunaVerif.Model.Basic
-import OptunaVerif.Generated.SearchSpaceCode
 /-
   Executable model of `optuna/search_space/intersection.py` and `optuna/search_space/group_decomposed.py`
   (C17).  Core Lean only.
@@ -8,13 +7,40 @@ import OptunaVerif.Generated.SearchSpaceCode
     `BaseDistribution` objects; the code only ever compares distributions for equality;
   * a dict `name ↦ distribution` is an association list (`AList Nat`, `Model/Basic.lean`), lookup = first
     match, `set` overwrites by key;
-  * the integer expressions and state lists of `_calculate` are *not* written here: they come from
-    `Generated/SearchSpaceCode.lean`, which `verif/translators/search_space.py` regenerates from the
-    Python source on every run (`breakTest`, `nextFirst`, `nextUnfinished`, `nextUnsetTest`, `statesBase` …).
+  * the integer expressions and state lists of `_calculate` are the constants of `SearchSpaceCode` below
+    (`breakTest`, `nextFirst`, `nextUnfinished`, `nextUnsetTest`, `statesBase` …).  They are tied to the Python
+    source twice, on every run, in `Props/C17Gen.lean`: `code_constants_pinned` (they are what
+    `verif/translators/search_space.py` reads out of the source into `Generated/SearchSpaceCode.lean`) and
+    the `interp_*` equalities (the whole method bodies, `verif/translators/tspace.py`).
 -/
 namespace OptunaVerif.SearchSpace
 open OptunaVerif
-open OptunaVerif.Generated
+
+/- The expressions of `_calculate` / `__init__` / `_GroupDecomposedSearchSpace.calculate` as the model uses them. -/
+namespace SearchSpaceCode
+/-- `_calculate`: `states_of_interest = [...]` -/
+def statesBase : List TState := [.complete, .waiting, .running]
+/-- `_calculate`: `if include_pruned: states_of_interest.append(...)` -/
+def statesPrunedExtra : List TState := [.pruned]
+/-- `_calculate`: default of the parameter `cached_trial_number` -/
+def cachedDefault : Int := -1
+/-- `_calculate`: `next_cached_trial_number = <const>` before the loop -/
+def nextInit : Int := -1
+/-- `_calculate`: the test of `if next_cached_trial_number == -1:` -/
+def nextUnsetTest (next : Int) : Bool := decide (next = (-1))
+/-- `_calculate`: the value assigned by `next_cached_trial_number = trial.number + 1` -/
+def nextFirst (number : Int) : Int := (number + 1)
+/-- `_calculate`: the test of `if cached_trial_number > trial.number: break` -/
+def breakTest (cached number : Int) : Bool := decide (cached > number)
+/-- `_calculate`, unfinished branch: the value assigned by `next_cached_trial_number = trial.number` -/
+def nextUnfinished (number : Int) : Int := number
+/-- `IntersectionSearchSpace.__init__`: `self._cached_trial_number = <const>` -/
+def cursorInit : Int := -1
+/-- `_GroupDecomposedSearchSpace.calculate`: states when not `include_pruned` -/
+def groupStates : List TState := [.complete]
+/-- `_GroupDecomposedSearchSpace.calculate`: states when `include_pruned` -/
+def groupStatesPruned : List TState := [.complete, .pruned]
+end SearchSpaceCode
 
 /-- `dict[str, BaseDistribution]` with distributions as equality tokens. -/
 abbrev Dists := AList Nat
